@@ -493,6 +493,20 @@ def run_offset(ctx, mon):
                 elif r.seconds != trunc_div(v, u):
                     ctx.V(f"C03:offset:from_{name}", f"Offset.from_{name}({v}) = {r.seconds} s, truncation gives {trunc_div(v, u)}", case, r.seconds, trunc_div(v, u))
             _call(ctx, lambda: f(v), inr, case, f"offset:from_{name}", ok)
+    # from_timedelta to the microsecond: "fractional seconds truncated" (towards zero, like every other factory), range +/- 18 h exactly
+    U = 10**6
+    for v in [0, 1, -1, U - 1, -(U - 1), U, -U, U + 1, -U - 1, -1_500_000, 1_500_000, OM * U, -OM * U, OM * U - 1, -OM * U + 1, OM * U + 1, -OM * U - 1, OM * U + U, -OM * U - U] \
+            + [rng.randint(-OM * U, OM * U) for _ in range(nv)] + [rng.randint(-OM, OM) * U + rng.choice([-1, 1, 500_000, -500_000, 999_999, -999_999]) for _ in range(nv // 2)]:
+        inr = -OM * U <= v <= OM * U
+        case = {"kind": "off_factory", "unit": "timedelta_us", "v": v}
+        ctx.count("offset_ops"); ctx.count("offset_from_timedelta_us"); ctx.key(("off_from", "timedelta", (v > 0) - (v < 0), inr, v % U == 0))
+        def oktd(r, inr_, case=case, v=v):
+            ctx.ev()
+            if not inr_:
+                ctx.V("C03:offset:from_timedelta:out-of-range-returned", f"Offset.from_timedelta({v} us) returned {r.seconds} s", case, r.seconds)
+            elif r.seconds != trunc_div(v, U):
+                ctx.V("C03:offset:from_timedelta", f"Offset.from_timedelta(timedelta(microseconds={v})) = {r.seconds} s, truncation gives {trunc_div(v, U)}", case, r.seconds, trunc_div(v, U))
+        _call(ctx, lambda: Offset.from_timedelta(datetime.timedelta(microseconds=v)), inr, case, "offset:from_timedelta", oktd)
     for h in range(-19, 20):
         case = {"kind": "off_hours", "h": h}
         _call(ctx, lambda: Offset.from_hours(h), -18 <= h <= 18, case, "offset:from_hours",
